@@ -370,6 +370,32 @@ Definition apply_rec (cfg : config) (e : entry) (op : rec_op) : entry * rec_stat
   | (_, st) => (e, st)
   end.
 
+(* The same with the WINDOW of generate_hash_key made explicit: the include recorder (process_preprocessed_file) runs
+   on the file system `ro_fs op`; the preprocessor output is hashed; only then add_result stats the recorded files - in
+   the file system `fs_add`, which somebody may have changed in between. *)
+Definition record_w (cfg : config) (e : entry) (fs fs_add : fsnap) (start : N) (date : bytes) (input : path)
+           (k : key) (incs : list (path * bool)) : entry * rec_status :=
+  match remember_all cfg fs start date input [] incs with
+  | None => (e, RecDisabled)
+  | Some [] => (e, RecEmpty)
+  | Some included => (add_result e fs_add start k (sort_files included), RecOk)
+  end.
+
+Definition apply_rec_w (cfg : config) (e : entry) (op : rec_op) (fs_add : fsnap) : entry * rec_status :=
+  let base := if ro_fresh op then entry_new else e in
+  match record_w cfg base (ro_fs op) fs_add (ro_start op) (ro_date op) (ro_input op) (ro_key op) (ro_incs op) with
+  | (e', RecOk) => (e', RecOk)
+  | (_, st) => (e, st)
+  end.
+
+(* the argument list that generate_hash_key hands to preprocessor_cache_entry_hash_key: preprocessor, arch and common
+   arguments, the profile output path if any, and - iff hash_working_directory - the working directory, LAST and
+   whatever the spelling of the input path *)
+Definition prelude_pp_args (cfg : config) (pre arch common : list bytes) (profile_out : option bytes) (cwd : bytes)
+  : list bytes :=
+  pre ++ arch ++ common ++ (match profile_out with Some p => [p] | None => [] end)
+      ++ (if hash_working_directory cfg then [cwd] else []).
+
 Definition run_recs (cfg : config) (ops : list rec_op) : entry :=
   fold_left (fun e op => fst (apply_rec cfg e op)) ops entry_new.
 
